@@ -36,17 +36,18 @@ META = dict(
          "result at all (non-returning runs = tasks the reading leaves undefined: a repetition body that does not advance, a "
          "Forward recursing without consuming); plainTable_iff "
          "(the driver's executable test is exactly the hypothesis). The driver reports per compared grammar whether the "
-         "hypothesis holds (evidence: plain_fragment; about 2/3 of the generated grammars). Plain = Literal, Empty, NoMatch, "
+         "hypothesis holds (evidence: plain_fragment; about 3/4 of the generated grammars). Plain = Literal, Empty, NoMatch, "
          "StringEnd, Word/CharsNotIn/Keyword/CaselessLiteral/LineEnd/WordStart/WordEnd as given terminal matchers, And, "
-         "MatchFirst, Opt, OneOrMore/ZeroOrMore, NotAny, FollowedBy, Group, Suppress, Forward; no actions/names, ignorables, "
+         "MatchFirst, Opt (also with a default), OneOrMore/ZeroOrMore, NotAny, FollowedBy, Group, Suppress, Combine, Forward; no "
+         "actions/names, ignorables, "
          "error stops, stop_on. "
          "(2) Outside the fragment, clause theorems (PPProofs/Props/C01.lean), each for ALL sub-expression behaviours, inputs, "
          "locations and list shapes: and_rest_iff_chain, matchfirst_first, or_longest_leftmost + sortDesc_head + best_spec + "
          "orPass1_cands (the two-pass Or returns the longest trial match, leftmost on ties), rep_greedy_no_giveback and "
          "rep_iterations_advance, lookahead_consumes_nothing, notany_iff, opt_spec, zeroOrMore_spec, group_nests / "
          "suppress_omits / combine_joins, and the whitespace rule skipWhite_stops / skipWhite_skips_only_white / "
-         "preParse_is_skipWhite / skip_then_match. PARTIAL w.r.t. the statement: Or, SkipTo, DelimitedList, Combine, "
-         "Located, actions and ignorables have clause theorems or model coverage only, no closed theorem; Each and Regex are "
+         "preParse_is_skipWhite / skip_then_match. PARTIAL w.r.t. the statement: Or, SkipTo, DelimitedList, "
+         "Located, stop_on, actions and ignorables have clause theorems or model coverage only, no closed theorem; Each and Regex are "
          "outside the model (reference interpreter / zoo only). The global statement on the real code is decided by the "
          "independent reference interpreter of the reading (harness/peg_ref.py) run against the real parse_string over "
          "exhaustive small scopes and random deep grammars.",
